@@ -397,6 +397,25 @@ Proof.
   split; [apply name_entry_total|]. apply entry_accessors_total.
 Qed.
 
+(* type-unit index split: indexes below local_type_unit_count select the local list (an offset), the
+   following foreign_type_unit_count indexes the foreign list (a signature), anything beyond is an error *)
+Theorem names_type_unit_split : forall (dbg be : bool) (ix : name_index) (ltus ftus : list N),
+  ni_ltu_list ix = concat (map (enc_word (ni_fmt64 ix) be) ltus) ->
+  ni_ftu_list ix = enc_words 8 be ftus ->
+  ni_ltu_count ix = N.of_nat (length ltus) -> ni_ftu_count ix = N.of_nat (length ftus) ->
+  N.of_nat (length ltus) + N.of_nat (length ftus) < 2 ^ 32 ->
+  Forall (fun v => v < (if ni_fmt64 ix then 2 ^ 64 else 2 ^ 32)) ltus -> Forall (fun v => v < 2 ^ 64) ftus ->
+  forall i : nat, N.of_nat i < 2 ^ 32 ->
+    ni_type_unit dbg be ix (N.of_nat i) =
+      match nth_error ltus i with
+      | Some off => Ok (inl off)
+      | None => match nth_error ftus (i - length ltus) with
+                | Some sig => Ok (inr sig)
+                | None => Err EUnexpectedEof
+                end
+      end.
+Proof. exact type_unit_split. Qed.
+
 (* type_unit_count = local + foreign (DESIGN §8 suspect S3): the u32 addition cannot overflow unless the two
    type-unit lists together occupy 16 GiB; on the bare record (no such size bound) it does overflow *)
 Theorem names_type_unit_count : forall (dbg : bool) (ix : name_index),
@@ -506,6 +525,6 @@ Check index_find_terminates. Check index_parse_no_panic. Check index_find_correc
 Check index_sections_rows. Check index_column_kinds. Check index_parse_encoded. Check index_lookup_encoded.
 Check names_by_bucket. Check names_by_hash. Check positions_is_scan. Check names_bucket_terminates.
 Check names_no_hash_table. Check names_layout. Check names_header. Check names_lookup_encoded.
-Check names_abbrevs. Check names_entry. Check names_entry_series. Check index_find_zero_refuted. Check insert_reaches_every_load. Check names_type_unit_count. Check djb_hash.
+Check names_type_unit_split. Check names_abbrevs. Check names_entry. Check names_entry_series. Check index_find_zero_refuted. Check insert_reaches_every_load. Check names_type_unit_count. Check djb_hash.
 Check aranges_padding. Check aranges_header. Check aranges_entries. Check aranges_no_panic.
 Check pubstuff. Check pubstuff_no_panic.
